@@ -198,7 +198,7 @@ fn decide(c: &Case, out: &mut CaseOut) -> Result<(), Fail> {
 
 fn case_strategy(tier: Tier) -> impl Strategy<Value = Case> {
     let fam = prop::sample::select(vec![Family::Atomics, Family::Atomics, Family::Locks, Family::Park, Family::Sync2, Family::Mixed, Family::Chan]);
-    (fam, any::<u64>(), 1usize..=4, 2usize..=40, any::<bool>()).prop_flat_map(move |(family, seed, depth, iters, big)| {
+    let small = (fam, any::<u64>(), 1usize..=4, 2usize..=40, any::<bool>()).prop_flat_map(move |(family, seed, depth, iters, big)| {
         let mut cfg = GenCfg::small(family);
         cfg.max_tasks = if big { 5 } else { 4 };
         cfg.max_ops = tier.pick(4, 6);
@@ -214,6 +214,26 @@ fn case_strategy(tier: Tier) -> impl Strategy<Value = Case> {
             Case { prog, seed, depth, iters }
         })
     })
+    .boxed();
+    // wide programs: more tasks than PCT's inline priority table holds (16), so that priorities handed out later in
+    // an iteration have to stay below / above the ones of the initial shuffle
+    let wide = (any::<u64>(), 1usize..=3, 3usize..=10, 15usize..=21, prop::collection::vec((0u8..4, 0u8..4), 21)).prop_map(|(seed, depth, iters, n, shapes)| {
+        let mut tasks = vec![th((1..=n).map(Op::Spawn).collect())];
+        for (a, b) in shapes.into_iter().take(n) {
+            let op = |x: u8| match x {
+                0 => Op::Yield,
+                1 => Op::AFetchAdd(0, 1),
+                2 => Op::ALoad(1),
+                _ => Op::AStore(1, 1),
+            };
+            tasks.push(th(vec![op(a), op(b)]));
+        }
+        let mut prog = Prog { objs: Default::default(), tasks };
+        prog.objs.atomics = 2;
+        Case { prog, seed, depth, iters }
+    })
+    .boxed();
+    prop_oneof![6 => small, 1 => wide]
 }
 
 fn th(ops: Vec<Op>) -> TaskDef {
